@@ -398,7 +398,11 @@ func cmdCheck(args []string) {
 		for _, e := range run.engErrs {
 			fmt.Fprintln(os.Stderr, "ENGINE-ERROR:", e)
 		}
-		os.Exit(2)
+		if violations == 0 {
+			os.Exit(2)
+		}
+		// with failed obligations the engine errors (typically unreachable code after a failed
+		// invariant) are consequences: the run is reported as a violation
 	}
 	if obligations == 0 {
 		fmt.Fprintln(os.Stderr, "ENGINE-ERROR: no obligations generated for", *id)
